@@ -653,6 +653,13 @@ func (pp *partitionProducer) flushRetryBuffers() {
 		}
 
 		for _, msg := range pp.retryState[pp.highWatermark].buf {
+			// a fresh message that was parked behind a retry is forwarded for the first time here:
+			// it needs its sequence number just like in dispatch
+			if pp.parent.conf.Producer.Idempotent && msg.retries == 0 && msg.flags == 0 && !msg.hasSequence {
+				msg.sequenceNumber, msg.producerEpoch = pp.parent.txnmgr.getAndIncrementSequenceNumber(msg.Topic, msg.Partition)
+				msg.hasSequence = true
+				verifEvt("pp.seq", msg, int(msg.sequenceNumber), int(msg.producerEpoch))
+			}
 			verifEvt("pp.fwd", msg, msg.retries, int(pp.brokerProducer.broker.ID()))
 			pp.brokerProducer.input <- msg
 		}
